@@ -6,11 +6,13 @@ lemmas (`Proofs/TopicsStore.lean`).  Helper lemmas for C10.
 -/
 import Mqtt.Proofs.BrokerLifeSession
 import Mqtt.Proofs.TopicsStore
+import Mqtt.Proofs.TopicsLevels
 
 namespace Mqtt.Proofs.BrokerLife
 open Mqtt.Iface.Broker Mqtt.Model.Broker
 open Mqtt.Model.Topics
-open Mqtt.Proofs.Topics (WF abs Entry hit subHit sinsertL_WF sinsertL_abs sinsertL_abs_false sremoveL_WF WF_empty)
+open Mqtt.Proofs.Topics (WF abs Entry hit subHit sinsertL_WF sinsertL_abs sinsertL_abs_false sremoveL_WF WF_empty
+  entryLevels)
 
 /-! ### the trie operations on `MemTopics` -/
 
@@ -19,8 +21,9 @@ def grant (mq q : Nat) : Nat := if q > mq then mq else q
 
 theorem subscribe_sroot (mt : MemTopics) (mq : Nat) (t : List UInt8) (q c : Nat) :
     (mt.subscribe mq t q c).1.sroot =
-      if validQos q then mt.sroot.sinsertL (levels t).1 (levels t).2 c (grant mq q) else mt.sroot := by
-  unfold MemTopics.subscribe SNode.sinsert grant
+      if validQos q then mt.sroot.sinsertL (entryLevels t).1 (entryLevels t).2 c (grant mq q) else mt.sroot := by
+  rw [Mqtt.Proofs.Topics.subscribe_entry]
+  unfold grant
   cases validQos q <;> rfl
 
 theorem subscribe_WF (mt : MemTopics) (mq : Nat) (t : List UInt8) (q c : Nat) (h : WF mt.sroot) :
@@ -32,28 +35,28 @@ theorem subscribe_WF (mt : MemTopics) (mq : Nat) (t : List UInt8) (q c : Nat) (h
 
 theorem unsubscribe_WF (mt : MemTopics) (t : List UInt8) (sub : Option Nat) (h : WF mt.sroot) :
     WF (mt.unsubscribe t sub).1.sroot := by
-  unfold MemTopics.unsubscribe SNode.sremove
+  rw [Mqtt.Proofs.Topics.unsubscribe_entry]
   exact sremoveL_WF _ _ _ _ h
 
 theorem retain_sroot (mt : MemTopics) (m : RMsg) : (mt.retain m).1.sroot = mt.sroot := by
-  unfold MemTopics.retain
+  rw [Mqtt.Proofs.Topics.retain_entry]
   split <;> rfl
 
 /-- a successful `Subscribe` leaves its entry in the trie -/
 theorem mem_abs_subscribe_new (mt : MemTopics) (mq : Nat) (t : List UInt8) (q c : Nat) (h : WF mt.sroot)
-    (hq : validQos q = true) (hl : (levels t).2 = true) :
-    ((levels t).1, c, grant mq q) ∈ abs (mt.subscribe mq t q c).1.sroot := by
+    (hq : validQos q = true) (hl : (entryLevels t).2 = true) :
+    ((entryLevels t).1, c, grant mq q) ∈ abs (mt.subscribe mq t q c).1.sroot := by
   rw [subscribe_sroot, hq, hl]
   simp only [↓reduceIte]
   exact (sinsertL_abs _ _ _ _ h).mem_iff.mpr (by simp)
 
 /-- any `Subscribe` keeps every entry of another path or another subscriber -/
 theorem mem_abs_subscribe_keep (mt : MemTopics) (mq : Nat) (t : List UInt8) (q c : Nat) (h : WF mt.sroot)
-    (e : Entry) (he : e ∈ abs mt.sroot) (hne : e.1 ≠ (levels t).1 ∨ e.2.1 ≠ c) :
+    (e : Entry) (he : e ∈ abs mt.sroot) (hne : e.1 ≠ (entryLevels t).1 ∨ e.2.1 ≠ c) :
     e ∈ abs (mt.subscribe mq t q c).1.sroot := by
   rw [subscribe_sroot]
   split
-  · cases hl : (levels t).2 with
+  · cases hl : (entryLevels t).2 with
     | false => exact (sinsertL_abs_false _ _ _ _ h).mem_iff.mpr he
     | true =>
       refine (sinsertL_abs _ _ _ _ h).mem_iff.mpr ?_
@@ -78,7 +81,7 @@ theorem resubscribe_WF (c : Nat) (l : List (Bytes × Nat)) : ∀ ts : MemTopics,
     exact ih _ (subscribe_WF ts _ t q c h)
 
 theorem resubscribe_keeps (c : Nat) (l : List (Bytes × Nat)) : ∀ ts : MemTopics, WF ts.sroot →
-    ∀ e : Entry, e ∈ abs ts.sroot → (∀ p ∈ l, e.1 ≠ (levels p.1).1 ∨ e.2.1 ≠ c) →
+    ∀ e : Entry, e ∈ abs ts.sroot → (∀ p ∈ l, e.1 ≠ (entryLevels p.1).1 ∨ e.2.1 ≠ c) →
     e ∈ abs (resubscribe ts c l).sroot := by
   induction l with
   | nil => intro ts _ e he _; exact he
@@ -89,16 +92,18 @@ theorem resubscribe_keeps (c : Nat) (l : List (Bytes × Nat)) : ∀ ts : MemTopi
     refine ih _ (subscribe_WF ts _ t q c h) e ?_ (fun p hp => hne p (List.mem_cons_of_mem _ hp))
     exact mem_abs_subscribe_keep ts _ t q c h e he (hne (t, q) (by simp))
 
-/-- entries of the list the tries accept (`Subscribe` would not return an error) -/
-def subscribable (p : Bytes × Nat) : Prop := validQos p.2 = true ∧ (levels p.1).2 = true
+/-- entries of the list the store accepts (`Subscribe` would not return an error:
+QoS ≤ 2, the filter does not begin with '$' and its level walk succeeds -
+`(entryLevels t).2 = (!checkSys t && (levels t).2)`, `Proofs.Topics.entryLevels_snd`) -/
+def subscribable (p : Bytes × Nat) : Prop := validQos p.2 = true ∧ (entryLevels p.1).2 = true
 
 /-- After `resubscribe`, every subscribable entry `(filter, qos)` of the list
 whose path is not addressed again later in the list is held in the trie for
 `c`, at the granted QoS. -/
 theorem resubscribe_holds (c : Nat) (l : List (Bytes × Nat)) : ∀ ts : MemTopics, WF ts.sroot →
-    l.Pairwise (fun p p' => (levels p.1).1 ≠ (levels p'.1).1) →
+    l.Pairwise (fun p p' => (entryLevels p.1).1 ≠ (entryLevels p'.1).1) →
     ∀ p ∈ l, subscribable p →
-      ((levels p.1).1, c, grant Generated.maxQosAllowed p.2) ∈ abs (resubscribe ts c l).sroot := by
+      ((entryLevels p.1).1, c, grant Generated.maxQosAllowed p.2) ∈ abs (resubscribe ts c l).sroot := by
   induction l with
   | nil => intro ts _ _ p hp; simp at hp
   | cons x xs ih =>
